@@ -282,8 +282,12 @@ def r3_best_batch(ctx: Context) -> None:
              and isinstance(s.value, ast.Call) and (dotted(s.value.func) or "").endswith("clip")]
     clip_ok = False
     for s in clips:
-        a = [src(x) for x in s.value.args]
-        clip_ok = len(a) == 3 and a[0] == f"{row}[{ix}]" and a[1] == f"search_space.parameters_bounds[0][{ix}]" and a[2] == f"search_space.parameters_bounds[1][{ix}]"
+        # positional or by keyword (a, a_min, a_max), bounds possibly held in locals hoisted out of the loop: compared as normal forms
+        cargs = [kwarg(s.value, "a", 0), kwarg(s.value, "a_min", 1) or kwarg(s.value, "min", 1), kwarg(s.value, "a_max", 2) or kwarg(s.value, "max", 2)]
+        if any(x is None for x in cargs):
+            continue
+        want_c = [f"{row}[{ix}]", f"search_space.parameters_bounds[0][{ix}]", f"search_space.parameters_bounds[1][{ix}]"]
+        clip_ok = all(str(n.rat(x)) == str(n.rat(parse_expr(w))) for x, w in zip(cargs, want_c)) and len(s.value.args) + len(s.value.keywords) == 3
     ctx.check(clip_ok, "R3.confine", "BestBatchSampler.sample_batch:clip", "the shocked coordinate is confined to [lower[index], upper[index]]",
               "the shocked coordinate is not clipped to its own bounds", sb, inner)
     # the rows being shocked are the copies of the parents
